@@ -205,6 +205,27 @@ def main(argv=None):
         reported.append({"class": sig[0], "replay": path, "runs": len(rs), "replay_verified": ok,
                          "message": small["violation"]["message"][:500]})
         exit_code = EXIT_VIOLATION
+    # scenario-level extras (thorough tier: compiled probes, real-process fidelity, hash-seed re-execution)
+    post = {}
+    if hasattr(scn, "post_batch") and not args.runs:
+        try:
+            post = scn.post_batch(tier, base_seed, results) or {}
+        except HarnessError as e:
+            print("HARNESS-ERROR property=%s post-batch probe: %s" % (prop, e))
+            return EXIT_HARNESS
+        except Exception:
+            print("HARNESS-ERROR property=%s post-batch probe:\n%s" % (prop, traceback.format_exc()))
+            return EXIT_HARNESS
+        for v in post.get("violations", []):
+            path = os.path.join(VERIF_DIR, "replays", "%s-%s-post.json" % (prop, v["class"]))
+            os.makedirs(os.path.dirname(path), exist_ok=True)
+            with open(path, "w") as f:
+                json.dump(core._jsonable(v), f, indent=1)
+            print("VIOLATION property=%s replay=%s" % (prop, path))
+            print("  class=%s (post-batch probe; re-run: %s)" % (v["class"], v.get("rerun", "")))
+            print("  %s" % v["message"][:500])
+            reported.append({"class": v["class"], "replay": path, "runs": 1, "replay_verified": None, "message": v["message"][:500]})
+            exit_code = EXIT_VIOLATION
     for kf in known_lines.values():
         print("KNOWN-FINDING: property=%s %s" % (prop, kf["what"]))
 
@@ -246,6 +267,7 @@ def main(argv=None):
             "workers": args.workers,
         }
         cov.update(ev)
+        cov.update(post.get("evidence", {}))
         doc = {
             "property_id": prop,
             "tier": tier,
